@@ -58,7 +58,7 @@ Definition w_F06d : package :=
     mkMod [n_p; n_core] [Alias n_HTTPError AConst None];
     mkMod [n_p; n_ep] [FromImport [n_p; n_core] [(n_E302, n_E302)]] ].
 
-(* F01e / F13b / F20a / F04c: a file that does not compile (decided by compile() in the oracle) *)
+(* F13b / F04c / F01g (and formerly F01e, F20a): a file that does not compile (decided by compile() in the oracle) *)
 Definition w_syntax : package :=
   [ mkMod [n_p] [];
     mkMod [n_p; n_mocks] [Broken] ].
